@@ -345,9 +345,9 @@ Definition run (s : state) (l : list step) : state := fold_left do_step l s.
 
 (** * Fair completion: no further loss, no further submissions.
     [drain]: every datagram still in flight arrives.
-    One [round], for every connection in turn: slice what is still queued (one chunk per message), put every
-    chunk from the acked prefix on on the wire one by one, each arriving at once, then the receiver
-    acknowledges its prefix and that acknowledgement arrives.
+    One [conn_round]: slice what is still queued (one chunk per message), put every chunk from the acked prefix
+    on on the wire one by one, each arriving at once, then the receiver acknowledges its prefix and that
+    acknowledgement arrives.  One [round]: a conn_round for the [leader], then one for every connection in turn.
     [complete] = drain, then (number of undelivered messages + 1) rounds. *)
 Definition slice_all_steps (c : nat) (sd : sender) : list step :=
   map (fun m => Slice c [ulen m]) (s_queue sd).
@@ -364,11 +364,37 @@ Definition conn_round (s : state) (c : nat) : state :=
   let s2 := run s1 (resend_steps c (s_prefix sd) (length (s_chunks sd) - N.to_nat (s_prefix sd))) in
   run s2 [AckEmit c (r_prefix (rcvr (getc c s2))) []; Deliver 0].
 
-Definition round (s : state) : state := fold_left conn_round (seq 0 (length (st_conns s))) s.
+(** memory accounted to one connection: reserved stream range minus what was already handed over *)
+Definition bytes (l : list msg) : N := sumN (map (@ulen N) l).
+Definition held (cn : conn) : N := r_total (rcvr cn) - bytes (r_deliv (rcvr cn)).
+Definition submitted (cn : conn) : list msg := s_done (sndr cn) ++ s_queue (sndr cn).
+
+Fixpoint find_idx {A} (p : A -> bool) (l : list A) (i : nat) : option nat :=
+  match l with
+  | [] => None
+  | x :: r => if p x then Some i else find_idx p r (S i)
+  end.
+
+(** the connection served first in a round: one that already holds memory if there is one, else the first
+    memory waiter, else the first connection with an undelivered message *)
+Definition leader (s : state) : nat :=
+  match find_idx (fun cn => 0 <? held cn) (st_conns s) 0 with
+  | Some c => c
+  | None =>
+      match st_wait s with
+      | f :: _ => f
+      | [] =>
+          match find_idx (fun cn => (length (r_deliv (rcvr cn)) <? length (submitted cn))%nat) (st_conns s) 0 with
+          | Some c => c
+          | None => O
+          end
+      end
+  end.
+
+Definition round (s : state) : state :=
+  fold_left conn_round (leader s :: seq 0 (length (st_conns s))) s.
 
 Definition drain (s : state) : state := run s (repeat (Deliver 0) (length (st_net s))).
-
-Definition submitted (cn : conn) : list msg := s_done (sndr cn) ++ s_queue (sndr cn).
 
 Definition undelivered (s : state) : nat :=
   fold_right (fun cn a => (length (submitted cn) - length (r_deliv (rcvr cn)) + a)%nat) O (st_conns s).
